@@ -19,8 +19,10 @@ mod c12;
 mod c13;
 mod c14;
 mod c15;
+mod c16;
 mod c17;
 mod c18;
+mod c19;
 mod codes;
 mod dec;
 mod arith;
@@ -99,8 +101,10 @@ fn main() {
         "C13" => c13::run(&run),
         "C14" => c14::run(&run),
         "C15" => c15::run(&run),
+        "C16" => c16::run(&run),
         "C17" => c17::run(&run),
         "C18" => c18::run(&run),
+        "C19" => c19::run(&run),
         _ => common::machinery(&format!("no check for {}", id)),
     };
     std::process::exit(code);
